@@ -294,6 +294,7 @@ func applyBuilder(r0 *core.Rng, idx int, c *message.IKEPayloadContainer) builder
 }
 
 func c19Builder(k *core.Case) {
+	noiseFor(k)
 	// prior container of 0..10 payloads
 	np := k.R.Intn(11)
 	var prior []abs.Payload
